@@ -719,32 +719,32 @@ type blockInfo struct {
 }
 
 type scenario struct {
-	ID       int
-	Seed     uint64
-	Backend  string
-	Kind     string // random | f6 | deep | double
-	Index    bool   // IndexAddressUtxos
-	blocks   map[common.Hash]*blockInfo
-	maxNum   uint64
+	ID                  int
+	Seed                uint64
+	Backend             string
+	Kind                string // random | f6 | deep | double
+	Index               bool   // IndexAddressUtxos
+	blocks              map[common.Hash]*blockInfo
+	maxNum              uint64
 	allowDelegateChange bool
 	noLockups           bool
 }
 
 type caseJSON struct {
-	Id       uint64 `json:"id"`
-	Kind     string `json:"kind"` // reorg | addlock
-	Scenario int    `json:"scenario"`
-	ScnSeed  uint64 `json:"scn_seed"`
-	ScnKind  string `json:"scn_kind"`
-	DelegChg bool   `json:"delegate_change"`
-	NoLockup bool   `json:"no_lockups"`
-	Index    bool   `json:"index_address_utxos"`
-	Backend  string `json:"backend"`
-	Switch   int    `json:"switch"`
-	From     string `json:"from,omitempty"`
-	To       string `json:"to,omitempty"`
-	Rolled   int    `json:"rolled_back"`
-	Applied  int    `json:"re_appended"`
+	Id       uint64       `json:"id"`
+	Kind     string       `json:"kind"` // reorg | addlock
+	Scenario int          `json:"scenario"`
+	ScnSeed  uint64       `json:"scn_seed"`
+	ScnKind  string       `json:"scn_kind"`
+	DelegChg bool         `json:"delegate_change"`
+	NoLockup bool         `json:"no_lockups"`
+	Index    bool         `json:"index_address_utxos"`
+	Backend  string       `json:"backend"`
+	Switch   int          `json:"switch"`
+	From     string       `json:"from,omitempty"`
+	To       string       `json:"to,omitempty"`
+	Rolled   int          `json:"rolled_back"`
+	Applied  int          `json:"re_appended"`
 	AddLock  *addLockCase `json:"addlock,omitempty"`
 }
 
@@ -1240,7 +1240,10 @@ func (rn *runner) runScenario1(s *scenario) {
 	}()
 	r := hlib.NewRng(s.Seed)
 	s.blocks = map[common.Hash]*blockInfo{}
-	fail := func(what string) { rn.rep.Note(fmt.Sprintf("scenario %d (%s): %s", s.ID, s.Kind, what)); rn.rep.Count("scenario-aborted:" + strings.SplitN(what, ":", 2)[0]) }
+	fail := func(what string) {
+		rn.rep.Note(fmt.Sprintf("scenario %d (%s): %s", s.ID, s.Kind, what))
+		rn.rep.Count("scenario-aborted:" + strings.SplitN(what, ":", 2)[0])
+	}
 
 	// ---- base chain on its own node
 	db0, close0 := newBackend("memorydb")
@@ -1864,7 +1867,7 @@ func main() {
 	}
 	defer os.RemoveAll(tmpDir)
 	rep := hlib.NewReport("C10", "a case = one real HeaderChain.SetCurrentHeader between two blocks of a tree of real blocks (base chain + 2..3 branches of depth 1..5 built by the real worker: "+
-		"Qi coinbases, cross-zone Qi transfers, conversions, signed Qi spends, trimming, lockup-contract coinbases with/without delegate, claims) on memorydb/leveldb/pebble, or one real vm.AddNewLock call; "+
+		"Qi coinbases, cross-zone Qi transfers, conversions, signed Qi spends, trimming, lockup-contract coinbases with/without delegate, claims) on memorydb/leveldb/pebble (every 4th random scenario with IndexAddressUtxos: address index compared by monitors only), or one real vm.AddNewLock call; "+
 		"non-trivial = at least one block rolled back whose undo records are non-empty; distinct by (blocks rolled back, blocks re-appended, set of undo-record kinds involved)")
 	cw := hlib.NewCaseWriter(f.Out, "From Coq Require Import List NArith Bool Uint63.\nFrom GQ Require Import Lib.Key Lib.SMap Model.C10.\nImport ListNotations.\nLocal Open Scope N_scope.\n", "C10.case", 25)
 	rn := &runner{rep: rep, cw: cw, tier: f.Tier, nextID: 1}
@@ -1891,6 +1894,7 @@ func main() {
 		}
 		cw.Close()
 		rep.Write(f.Out)
+		os.RemoveAll(tmpDir)
 		os.Exit(0)
 	}
 
@@ -1924,5 +1928,6 @@ func main() {
 		fmt.Fprintln(os.Stderr, "open", tOpen, "close", tClose, "gen", tGen, "switch", tSwitch)
 	}
 	_ = filepath.Join
+	os.RemoveAll(tmpDir)
 	os.Exit(0)
 }
